@@ -341,34 +341,66 @@ pub fn parse_dot(s: &str) -> Result<Graph, String> {
     Ok(g)
 }
 
-/// Compare the nodes/edges of one (sub)graph with one automaton; ids carry `prefix`.
-fn compare_automaton(g: &Graph, dfa: &DfaDump, prefix: &str, n_classes: usize) -> Result<(), (String, String)> {
+/// Words of a label: maximal runs of letters, digits and '#'.
+fn words(label: &str) -> Vec<String> {
+    label
+        .split(|c: char| !(c.is_alphanumeric() || c == '#'))
+        .filter(|w| !w.is_empty())
+        .map(|w| w.to_string())
+        .collect()
+}
+
+fn is_token_type_word(w: &str) -> Option<u32> {
+    w.strip_prefix('T').and_then(|d| if !d.is_empty() && d.chars().all(|c| c.is_ascii_digit()) { d.parse().ok() } else { None })
+}
+
+/// The class id of an edge label: the number behind the last "C#".
+fn class_id_of(label: &str) -> Option<u32> {
+    let i = label.rfind("C#")?;
+    let digits: String = label[i + 2..].chars().take_while(|c| c.is_ascii_digit()).collect();
+    digits.parse().ok()
+}
+
+/// Compare the nodes/edges of one (sub)graph with one automaton. Node *ids* are opaque: which
+/// state a node pictures is read from its label (the state number is the first numeric word), so
+/// any naming scheme for nodes and any label layout that shows the state number, and `T<type>`
+/// for accepting states, is accepted. Colours and shapes are not judged.
+fn compare_automaton(g: &Graph, dfa: &DfaDump, _prefix: &str, n_classes: usize) -> Result<(), (String, String)> {
     let n = dfa.states.len();
-    let want_ids: BTreeSet<String> = (0..n).map(|i| format!("{}{}", prefix, i)).collect();
-    let got_ids: BTreeSet<String> = g.nodes.iter().map(|x| x.0.clone()).collect();
-    if g.nodes.len() != got_ids.len() {
-        return Err(("node_declared_twice".into(), format!("{:?}", g.nodes.iter().map(|x| &x.0).collect::<Vec<_>>())));
-    }
-    if want_ids != got_ids {
-        return Err(("node_set".into(), format!("automaton has states {:?}, file has nodes {:?}", want_ids, got_ids)));
-    }
+    let mut node_state: BTreeMap<String, usize> = BTreeMap::new();
+    let mut seen_states: BTreeSet<usize> = BTreeSet::new();
     for (id, at) in &g.nodes {
-        let i: usize = id[prefix.len()..].parse().unwrap();
-        let label = at.get("label").cloned().unwrap_or_default();
-        let red = at.get("color").map(|c| c == "red").unwrap_or(false);
-        match dfa.accepting[i] {
+        let label = at.get("label").cloned().unwrap_or_else(|| id.clone());
+        let ws = words(&label);
+        let Some(state) = ws.iter().find_map(|w| w.parse::<usize>().ok()) else {
+            return Err(("node_without_state_number".into(), format!("node {:?} label {:?}", id, label)));
+        };
+        if node_state.insert(id.clone(), state).is_some() {
+            return Err(("node_declared_twice".into(), format!("{:?}", id)));
+        }
+        if !seen_states.insert(state) {
+            return Err(("state_pictured_twice".into(), format!("state {} (node {:?})", state, id)));
+        }
+        if state >= n {
+            return Err(("node_set".into(), format!("node {:?} pictures state {} but the automaton has {} states", id, state, n)));
+        }
+        let shown: Vec<u32> = ws.iter().filter_map(|w| is_token_type_word(w)).collect();
+        match dfa.accepting[state] {
             Some(t) => {
-                let want = format!("{} T{}", i, t);
-                if label != want || !red {
-                    return Err(("accepting_label".into(), format!("state {} accepts token type {}: want red label {:?}, file has {:?} (color {:?})", i, t, want, label, at.get("color"))));
+                if shown != vec![t] {
+                    return Err(("accepting_label".into(), format!("state {} accepts token type {}: the label {:?} shows token types {:?}", state, t, label, shown)));
                 }
             }
             None => {
-                if label != i.to_string() || red {
-                    return Err(("plain_label".into(), format!("state {} is not accepting: want label {:?} not red, file has {:?} (color {:?})", i, i.to_string(), label, at.get("color"))));
+                if !shown.is_empty() {
+                    return Err(("plain_label".into(), format!("state {} is not accepting but its label {:?} shows token types {:?}", state, label, shown)));
                 }
             }
         }
+    }
+    if seen_states.len() != n {
+        let missing: Vec<usize> = (0..n).filter(|i| !seen_states.contains(i)).collect();
+        return Err(("node_set".into(), format!("states {:?} of the automaton have no node", missing)));
     }
     let mut want: Vec<(usize, usize, u32)> = Vec::new();
     for (from, ts) in dfa.states.iter().enumerate() {
@@ -379,11 +411,8 @@ fn compare_automaton(g: &Graph, dfa: &DfaDump, prefix: &str, n_classes: usize) -
     want.sort();
     let mut got: Vec<(usize, usize, u32)> = Vec::new();
     for (a, b, at) in &g.edges {
-        let pa = a.strip_prefix(prefix).and_then(|x| x.parse::<usize>().ok());
-        let pb = b.strip_prefix(prefix).and_then(|x| x.parse::<usize>().ok());
         let label = at.get("label").cloned().unwrap_or_default();
-        let cc = label.rsplit_once("(C#").and_then(|x| x.1.strip_suffix(')')).and_then(|x| x.parse::<u32>().ok());
-        match (pa, pb, cc) {
+        match (node_state.get(a), node_state.get(b), class_id_of(&label)) {
             (Some(x), Some(y), Some(c)) => {
                 if c as usize >= n_classes {
                     return Err(("edge_class_unregistered".into(), format!("edge {}->{} refers to class {} but only {} are registered", a, b, c, n_classes)));
@@ -391,9 +420,9 @@ fn compare_automaton(g: &Graph, dfa: &DfaDump, prefix: &str, n_classes: usize) -
                 if label.contains('"') || label.contains('\\') {
                     mark("probe.label_with_escapes");
                 }
-                got.push((x, y, c))
+                got.push((*x, *y, c))
             }
-            _ => return Err(("edge_unreadable".into(), format!("edge {:?} -> {:?} label {:?}", a, b, label))),
+            _ => return Err(("edge_unreadable".into(), format!("edge {:?} -> {:?} label {:?} (endpoints must be nodes of the same (sub)graph, the label must carry C#<class id>)", a, b, label))),
         }
     }
     got.sort();
@@ -412,22 +441,19 @@ pub fn compare_mode(text: &str, mode: &scnr::verif::ModeDump, n_classes: usize) 
     }
     let mut seen = BTreeSet::new();
     for (tt, positive, la) in &mode.dfa.lookaheads {
-        let tag = format!("T{}(", tt);
         let found: Vec<&(String, Graph)> = g
             .clusters
             .iter()
-            .filter(|(_, sub)| sub.attrs.get("label").map(|l| l.contains(&tag)).unwrap_or(false))
+            .filter(|(_, sub)| sub.attrs.get("label").map(|l| words(l).iter().any(|w| is_token_type_word(w) == Some(*tt))).unwrap_or(false))
             .collect();
         if found.len() != 1 {
             return Err(("cluster_for_token_type".into(), format!("want exactly one cluster labelled for token type {}, found {}", tt, found.len())));
         }
         let (name, sub) = found[0];
-        if !name.starts_with("cluster") {
-            return Err(("cluster_name".into(), name.clone()));
-        }
         seen.insert(name.clone());
         let label = sub.attrs.get("label").cloned().unwrap_or_default().to_lowercase();
-        let (pos, neg) = (label.contains("pos"), label.contains("neg"));
+        let ws = words(&label);
+        let (pos, neg) = (ws.iter().any(|w| w.starts_with("pos")), ws.iter().any(|w| w.starts_with("neg")));
         if pos == neg || pos != *positive {
             return Err(("cluster_polarity".into(), format!("lookahead of token type {} is {}, cluster label {:?}", tt, if *positive { "positive" } else { "negative" }, label)));
         }
@@ -712,7 +738,9 @@ impl<'w> Exec for Exec18<'w> {
                         listing.sort();
                         for f in &listing {
                             if !self.may_exist.contains(f) {
-                                return StepOut::fail(Obs::Export(Ok(())), viol("C18/files/unexpected_file".into(), idx, format!("only {:?}", self.may_exist), f));
+                                // the statement asks for one file per mode; it does not forbid further
+                                // files, so this is counted, not judged
+                                bump("observe.extra_file_in_target_folder");
                             }
                         }
                         for (mi, n) in names.iter().enumerate() {
